@@ -52,6 +52,8 @@ func main() {
 	dump := flag.String("dump", "", "print SSA of this function and exit")
 	tier2 := flag.Bool("tier2", false, "package is generated tier-2 code (attribution of safety/frame obligations)")
 	scan := flag.String("scan", "", "static scan: nondet | fieldreads (JSON on stdout)")
+	hintsFile := flag.String("replayhints", "", "JSON: function -> path suffix -> Go expression for opaque attribute types")
+	doReplay := flag.Bool("replay", false, "replay counterexamples of failed obligations on the compiled package (tier 2)")
 	flag.Parse()
 
 	t0 := time.Now()
@@ -215,6 +217,29 @@ func main() {
 		rep.Funcs = kept
 	}
 	rep.Results = solveAll(vcs, wdir, *workers, *timeout, *seed, *keep)
+	if *doReplay {
+		if *hintsFile != "" {
+			if data, err := os.ReadFile(*hintsFile); err == nil {
+				_ = json.Unmarshal(data, &eng.replayHints)
+			}
+		}
+		byFn := map[string]*VC{}
+		for _, vc := range vcs {
+			byFn[vc.fnKey] = vc
+		}
+		nrep := 0
+		for _, r := range rep.Results {
+			if r.Status != "failed" || r.ExpectFail || nrep >= 6 {
+				continue
+			}
+			if vc := byFn[r.Func]; vc != nil {
+				r.Replay = eng.replay(vc, r.Obligation, *dir)
+				if r.Replay.Attempted {
+					nrep++
+				}
+			}
+		}
+	}
 	for k, c := range eng.contracts.Funcs {
 		if !c.Used && !c.Extern {
 			rep.Unused = append(rep.Unused, k)
